@@ -112,6 +112,8 @@ def _lower_field(f, msg_proto, oneof_index):
         fp.options.Extensions[resource_pb2.resource_reference].type = f["resource_ref"]
     if f.get("child_ref"):
         fp.options.Extensions[resource_pb2.resource_reference].child_type = f["child_ref"]
+    if f.get("deprecated"):
+        fp.options.deprecated = True
     if f.get("uuid4"):
         fp.options.Extensions[field_info_pb2.field_info].format = field_info_pb2.FieldInfo.UUID4
     if f.get("operation_field"):
